@@ -55,6 +55,9 @@ PROPS = {
                                                  oracles=["setup_keeps_existing", "setup_default_value", "setup_idempotent"])}),
     "C14": dict(suites={"exec": dict(fields=XLAYOUT, oracles=["panic_payload", "panic_dependents", "panic_twice", "next_dispatch", "probe_free",
                                                               "unexpected_panic"])}),
+    "C16": dict(suites={"parseq": dict(fields=["build", "reads", "writes", "setup", "accept", "driver-exception"],
+                                       oracles=["conflict_accepted", "compatible_rejected", "setup_reaches_every_leaf", "unexpected_panic",
+                                                "once", "seq_order", "run_counts"])}),
     "C17": dict(suites={"meta": dict(fields=["outcome", "driver-exception"],
                                      oracles=["get_iff_registered", "own_vtable", "same_address", "bad_cast_only",
                                               "iter_registered_present_in_first_registration_order", "iter_own_vtable"])}),
